@@ -105,3 +105,81 @@ def targets(tier):
                    ensures=[("new-state-enters-the-graph-only-with-an-unseen-file", ens_dep)], exc_ensures=[("found-twice-stops-the-build", exc_dep)],
                    raises=(CompileError,), overrides=ov, field_types={},
                    note="one generic dependency for which a new State is created (ordinary dependency or ancestor package), with / without a file, file seen before or not")]
+
+
+# ---- FindModuleCache._find_module, one generic search-path entry: what is found in it is considered in the
+# order  stubs-only package  >  package (__init__.pyi, __init__.py)  >  namespace directory  >  module file
+# (.pyi, .py) -- the same preference find_sources_in_dir applies ('a directory claims its name').  Candidates
+# that need verification and fail it are remembered as near misses IN THAT ORDER (the first near miss wins
+# later), and a candidate is returned only if every candidate of higher rank was absent or failed.
+
+import mypy.modulefinder as MF
+
+
+class FakeFsCache:
+    def isfile_case(self, path, prefix):
+        raise NotImplementedError
+
+    def exists_case(self, path, prefix):
+        raise NotImplementedError
+
+
+def setup_entry(I):
+    from pyvc.interp import LoopSpec  # noqa: F401
+
+    self = I.make(TObj(MF.FindModuleCache), "self")
+    self.cands = [MF.FindModuleCache]
+    opts = I.new_object(FakeOptionsMF)
+    opts.fields["namespace_packages"] = I.make(TBool(), "namespace_packages")
+    self.fields["options"] = opts
+    base_dir, verify = I.make(TStr(), "base_dir"), I.make(TBool(), "verify")
+    seplast = I.make(TStr(), "seplast")
+    near = SList([])
+    return {"args": [], "locals": {"self": self, "base_dir": base_dir, "verify": verify, "seplast": seplast, "sepinit": SStr(z3.StringVal("/__init__")),
+                                   "components": SList([I.make(TStr(), "c0"), I.make(TStr(), "c1")]), "fscache": I.new_object(FakeFsCache), "near_misses": near,
+                                   "id": I.make(TStr(), "id")},
+            "near": near, "base_dir": base_dir, "seplast": seplast}
+
+
+class FakeOptionsMF:
+    namespace_packages: bool
+
+
+def _rank_terms(env):
+    bp = z3.Concat(env["base_dir"].t, env["seplast"].t)
+    S = z3.StringVal
+    return [(0, z3.Concat(bp, S("-stubs"), S("/__init__"), S(".pyi"))), (1, z3.Concat(bp, S("/__init__"), S(".pyi"))), (2, z3.Concat(bp, S("/__init__"), S(".py"))),
+            (3, bp), (4, z3.Concat(bp, S(".pyi"))), (5, z3.Concat(bp, S(".py")))]
+
+
+def _rank_of(term, env):
+    t = str(simp(term))
+    for r, cand in _rank_terms(env):
+        if str(simp(cand)) == t:
+            return r
+    return None
+
+
+def ens_entry(I, env, res):
+    ranks = []
+    for it in env["near"].items:
+        if not isinstance(it, STuple) or not isinstance(it.items[0], SStr):
+            return z3.BoolVal(False)
+        r = _rank_of(it.items[0].t, env)
+        if r is None:
+            return z3.BoolVal(False)
+        ranks.append(r)
+    ordered = all(a < b for a, b in zip(ranks, ranks[1:]))
+    ok = ordered
+    if isinstance(res, STuple) and isinstance(res.items[0], SStr):
+        rr = _rank_of(res.items[0].t, env)
+        ok = ok and rr is not None and all(r < rr for r in ranks)
+    return z3.BoolVal(bool(ok))
+
+
+def targets_find_module(tier):
+    ov = {"contracts.foundtwice:FakeFsCache.isfile_case": returns(TBool(), "isfile_case"), "contracts.foundtwice:FakeFsCache.exists_case": returns(TBool(), "exists_case"),
+          "mypy.modulefinder:verify_module": returns(TBool(), "verify_module"), "posixpath:dirname": returns(TStr(), "dirname"), "os.path:dirname": returns(TStr(), "dirname")}
+    return [Target("modulefinder._find_module.entry_precedence", "mypy.modulefinder:FindModuleCache._find_module", setup_entry,
+                   loop_body=("for base_dir, verify in candidate_base_dirs", None), ensures=[("candidates-of-one-entry-in-precedence-order", ens_entry)], raises=(),
+                   overrides=ov, field_types={}, note="one generic search-path entry; the file system is an arbitrary function; a two-component module id (the dir_prefix loop runs once)")]
